@@ -664,7 +664,14 @@ func init() {
 			}
 			return 48
 		},
-		RaceFrom:     func(tier string) int { return -1 },
+		// thorough: the last 48 cases (all six kinds, eight times) run in the -race build, so that an
+		// evaluation goroutine that still touches the world after its call returned is reported
+		RaceFrom: func(tier string) int {
+			if tier == "thorough" {
+				return 600 - 48
+			}
+			return -1
+		},
 		Run:          c11Run,
 		CaseTimeoutS: 600,
 		MaxWorkers:   8,
